@@ -29,6 +29,7 @@ where
         move |serial, x| {
           if x == target {
             sctl_next.sink_next(true);
+            sctl_next.upstream_abort_observe(&serial);
             sctl_next.sink_complete(&serial);
           }
         },
